@@ -128,7 +128,17 @@ func (s *state) step(b *ssa.BasicBlock, ii int, in ssa.Instruction) bool {
 		iv := s.get(d.Index)
 		k, ok := litInt(iv.S[0])
 		if !ok {
-			panic(engineErr("symbolic index into array value"))
+			idx := s.idx64(d.Index)
+			s.safety("index", s.inRange(idx, m.offConst(arr.Len())), in)
+			if n != 1 {
+				panic(engineErr("symbolic index into array value with composite elements"))
+			}
+			r := x.S[arr.Len()-1]
+			for j := arr.Len() - 2; j >= 0; j-- {
+				r = ite(eq(idx, m.offConst(j)), x.S[j], r)
+			}
+			s.vals[d] = Val{T: d.Type(), S: []string{r}}
+			break
 		}
 		s.vals[d] = Val{T: d.Type(), S: x.S[int(k)*n : int(k+1)*n]}
 	case *ssa.Lookup:
@@ -185,6 +195,9 @@ func (s *state) step(b *ssa.BasicBlock, ii int, in ssa.Instruction) bool {
 			break
 		}
 		ok := eq(x.S[0], fmt.Sprint(u.eng.typeID(d.AssertedType)))
+		if u.rawBoxed {
+			panic(engineErr("type assertion in a unit that boxed a raw pointer into an interface"))
+		}
 		pv := s.loadAt(d.AssertedType, "", "", &fieldRef{heap: "B_" + tname(d.AssertedType), ref: x.S[1], off: m.offConst(0)})
 		if d.CommaOk {
 			zero := m.zeroVal(d.AssertedType)
@@ -282,11 +295,26 @@ func (s *state) step(b *ssa.BasicBlock, ii int, in ssa.Instruction) bool {
 		s.endPath()
 		return false
 	case *ssa.RunDefers:
-		if len(s.defers) > 0 {
-			panic(engineErr("defer is not supported"))
+		// deferred calls run last-in-first-out, each by its contract
+		for i := len(s.defers) - 1; i >= 0; i-- {
+			df := s.defers[i]
+			callee, fc, _ := s.resolveCallee(df, true)
+			if fc == nil {
+				panic(engineErr(fmt.Sprintf("%s: deferred call needs a contract", u.eng.posStr(df.Pos()))))
+			}
+			s.applyContract(fc, callee, s.deferArgs[df], df, nil)
 		}
+		s.defers = nil
 	case *ssa.Defer:
-		panic(engineErr("defer is not supported in " + funcKey(b.Parent())))
+		var args []Val
+		for _, a := range d.Call.Args {
+			args = append(args, s.get(a))
+		}
+		if s.deferArgs == nil {
+			s.deferArgs = map[*ssa.Defer][]Val{}
+		}
+		s.deferArgs[d] = args
+		s.defers = append(s.defers, d)
 	case *ssa.Call:
 		return s.doCall(b, ii, d)
 	case *ssa.Go, *ssa.Send, *ssa.Select:
@@ -347,6 +375,49 @@ func (s *state) load(pv ssa.Value, t types.Type, in ssa.Instruction) Val {
 	if g, ok := pv.(*ssa.Global); ok {
 		if v, ok := s.globalInit(g); ok {
 			return v
+		}
+	}
+	if g, ok := pv.(*ssa.Global); ok {
+		if arr, isArr := t.Underlying().(*types.Array); isArr {
+			u.eng.immutableInit(g)
+			if tab, ok := u.eng.arrInit[g]; ok && len(u.m.leaves(arr.Elem())) == 1 {
+				var ss []string
+				for k := int64(0); k < arr.Len(); k++ {
+					if c, ok := tab[k]; ok {
+						ss = append(ss, s.constVal(c).S[0])
+					} else {
+						ss = append(ss, u.m.zeroVal(arr.Elem()).S[0])
+					}
+				}
+				return Val{T: t, S: ss}
+			}
+		}
+	}
+	// immutable package-level arrays with constant initialisers
+	if ia, ok := pv.(*ssa.IndexAddr); ok {
+		if g, ok := ia.X.(*ssa.Global); ok {
+			u.eng.immutableInit(g) // make sure the tables are computed
+			if tab, ok := u.eng.arrInit[g]; ok {
+				arr := g.Type().Underlying().(*types.Pointer).Elem().Underlying().(*types.Array)
+				s.get(pv) // index obligation was emitted at the IndexAddr
+				idx := s.idx64(ia.Index)
+				elem := func(k int64) string {
+					if c, ok := tab[k]; ok {
+						return s.constVal(c).S[0]
+					}
+					return u.m.zeroVal(arr.Elem()).S[0]
+				}
+				if k, ok := litInt(idx); ok {
+					return Val{T: t, S: []string{elem(k)}}
+				}
+				if arr.Len() <= 32 && len(u.m.leaves(arr.Elem())) == 1 {
+					r := elem(arr.Len() - 1)
+					for k := arr.Len() - 2; k >= 0; k-- {
+						r = ite(eq(idx, u.m.offConst(k)), elem(k), r)
+					}
+					return Val{T: t, S: []string{r}}
+				}
+			}
 		}
 	}
 	// the reflect.SliceHeader overlay idiom
